@@ -397,7 +397,7 @@ fn run_fault(tier: &str) -> i32 {
         coverage: serde_json::json!({
             "evaluations": o.runs,
             "distinct_nontrivial": o.op_failed,
-            "rule": "for every history, every op and every file-system call the op issues in the clean syscall log (openat, read, pread64, write, pwrite64, fsync, rename*, unlink*, mkdir, statx, getdents64, ...), one run per applicable errno (ENOSPC/EIO) and per continuation (retry the op / reopen at once) with exactly that call failing via strace fault injection; a run is non-trivial when the injected failure made the operation return an error (otherwise the fault was absorbed and the run must equal the clean run)",
+            "rule": "for every history, every op and every file-system call the op issues in the clean syscall log (openat, read, pread64, write, pwrite64, fsync, rename*, unlink*, mkdir, statx, getdents64, ...), one run per applicable errno (ENOSPC/EIO) and per continuation (retry the op / reopen at once / go on with the rest of the history without repeating the call, the expected states then being those of the history without that op; quick runs the last two only for calls that change the file system) with exactly that call failing via strace fault injection; a run is non-trivial when the injected failure made the operation return an error (otherwise the fault was absorbed and the run must equal the clean run)",
             "samples": o.samples,
             "exhaustive": !o.capped,
             "capped": o.capped,
